@@ -129,45 +129,50 @@ def run(rng, tier, res=None, want=("prim", "fit", "semi")):
         # queries: anywhere in the universe, including training positions (query == training sample)
         Iq = [rng.randrange(U) if rng.random() < 0.5 else rng.choice(idx) for _ in range(nq)]
         X = np.zeros((nLab, 1)); Y = np.array(lab, dtype=int)
-        feature_mode = rng.random() < 0.3
-        if feature_mode:
-            # real metric evaluated on features (incl. asymmetric ones: argument orientation matters)
-            import opfython.math.distance as _dist
-            metric = rng.choice(["euclidean", "log_squared_euclidean", "manhattan", "pearson", "neyman",
-                                 "kullback_leibler", "chi_squared", "canberra", "squared_chord"])
-            fn = _dist.DISTANCES[metric]
-            dd = rng.choice([1, 2, 3])
-            lattice = rng.random() < 0.5
-            zeros_ok = metric not in ("squared_chord",) or True
-            pts = [[float(rng.randint(0, 3)) if lattice else rng.choice([rng.uniform(0.2, 4.0), rng.uniform(0.2, 4.0), 0.0])
-                    for _ in range(dd)] for _ in range(U)]
-            P_ = np.array(pts)
-            I = None; idx = list(range(n))
-            Iq = [n + t if n + t < U else rng.randrange(U) for t in range(nq)]
-            if nq and rng.random() < 0.5:
-                Iq[0] = rng.randrange(n)
-            M = np.array([[float(fn(P_[a].copy(), P_[b].copy())) for b in range(U)] for a in range(U)])
-            X = P_[:nLab].copy(); XU = P_[nLab:n].copy(); Q = P_[Iq].copy() if nq else np.zeros((0, dd))
-            Xb, XUb, Qb = X.tobytes(), XU.tobytes(), Q.tobytes()
-            kind = "feat_" + metric
-            o = (SemiSupervisedOPF if semi else SupervisedOPF)(distance=metric)
-            if semi:
-                o.fit(X, Y, XU)
+        try:
+            feature_mode = rng.random() < 0.3
+            if feature_mode:
+                # real metric evaluated on features (incl. asymmetric ones: argument orientation matters)
+                import opfython.math.distance as _dist
+                metric = rng.choice(["euclidean", "log_squared_euclidean", "manhattan", "pearson", "neyman",
+                                     "kullback_leibler", "chi_squared", "canberra", "squared_chord"])
+                fn = _dist.DISTANCES[metric]
+                dd = rng.choice([1, 2, 3])
+                lattice = rng.random() < 0.5
+                zeros_ok = metric not in ("squared_chord",) or True
+                pts = [[float(rng.randint(0, 3)) if lattice else rng.choice([rng.uniform(0.2, 4.0), rng.uniform(0.2, 4.0), 0.0])
+                        for _ in range(dd)] for _ in range(U)]
+                P_ = np.array(pts)
+                I = None; idx = list(range(n))
+                Iq = [n + t if n + t < U else rng.randrange(U) for t in range(nq)]
+                if nq and rng.random() < 0.5:
+                    Iq[0] = rng.randrange(n)
+                M = np.array([[float(fn(P_[a].copy(), P_[b].copy())) for b in range(U)] for a in range(U)])
+                X = P_[:nLab].copy(); XU = P_[nLab:n].copy(); Q = P_[Iq].copy() if nq else np.zeros((0, dd))
+                Xb, XUb, Qb = X.tobytes(), XU.tobytes(), Q.tobytes()
+                kind = "feat_" + metric
+                o = (SemiSupervisedOPF if semi else SupervisedOPF)(distance=metric)
+                if semi:
+                    o.fit(X, Y, XU)
+                else:
+                    o.fit(X, Y)
+                Mbytes = M.tobytes()
             else:
-                o.fit(X, Y)
-            Mbytes = M.tobytes()
-        else:
-            if semi:
-                o = SemiSupervisedOPF(distance="euclidean")
-            else:
-                o = SupervisedOPF(distance="euclidean")
-            o.pre_computed_distance = True
-            o.pre_distances = M
-            Mbytes = M.tobytes()
-            if semi:
-                o.fit(X, Y, np.zeros((nU, 1)), I_train=None)
-            else:
-                o.fit(X, Y, I_train=(np.array(I) if I is not None else None))
+                if semi:
+                    o = SemiSupervisedOPF(distance="euclidean")
+                else:
+                    o = SupervisedOPF(distance="euclidean")
+                o.pre_computed_distance = True
+                o.pre_distances = M
+                Mbytes = M.tobytes()
+                if semi:
+                    o.fit(X, Y, np.zeros((nU, 1)), I_train=None)
+                else:
+                    o.fit(X, Y, I_train=(np.array(I) if I is not None else None))
+        except Exception as ex:
+            if len(set(lab)) >= 2:
+                viol("C15" if semi else "C01", [f"fit raised {type(ex).__name__}: {ex}"], {"stream": "fit", "labels": lab, "kind": kind})
+            continue
         fobs = forest_obs(o.subgraph, n)
         nd = o.subgraph.nodes
         proto = [nd[i].status == 1 for i in range(n)]
@@ -178,7 +183,13 @@ def run(rng, tier, res=None, want=("prim", "fit", "semi")):
         preds = []
         feats_before = b"".join(nd[i].features.tobytes() for i in range(n))
         if nq:
-            preds = o.predict(Q) if feature_mode else o.predict(np.zeros((nq, 1)), I_val=np.array(Iq))
+            try:
+                preds = o.predict(Q) if feature_mode else o.predict(np.zeros((nq, 1)), I_val=np.array(Iq))
+            except Exception as ex:
+                for pp in ("C03", "C15" if semi else "C01"):
+                    viol(pp, [f"predict raised {type(ex).__name__}: {ex} on a fitted model (conquest order has {len(order)} of {n} samples)"],
+                         {"stream": "fit", "labels": lab, "kind": kind, "M": M.tolist(), "I": I})
+                continue
             if b"".join(nd[i].features.tobytes() for i in range(n)) != feats_before:
                 viol("C09", ["predict modified the fitted model's stored features: later predictions depend on the call history"],
                      {"stream": "fit", "kind": kind})
@@ -255,6 +266,11 @@ def run(rng, tier, res=None, want=("prim", "fit", "semi")):
             wf = lambda a, b: M[idx[a]][idx[b]]  # noqa
             true_lab = lab_all
             msgs = O.check_forest(n, wf, true_lab, proto, cost, pred, plabel, order)
+            if semi:
+                lab_field = [nd[i].label for i in range(n)]
+                for t in range(n):
+                    if not proto[t] and lab_field[t] != plabel[t]:
+                        msgs.append(f"sample {t} carries label {lab_field[t]} but the prototype at the root of its path has true label {plabel[t]}")
             viol("C15" if semi else "C01", msgs, meta)
             if not semi:
                 for s in range(n):
